@@ -56,6 +56,7 @@ var Variants = map[string][]Node{
 	"sample": {
 		{K: "sample", N: 2},
 		{K: "sample", D: 2},
+		{K: "sample", N: 3},
 	},
 	"derivative": {
 		{K: "derivative", Fields: []string{"v"}, As: []string{"v"}, Unit: 1},
@@ -77,6 +78,7 @@ var Variants = map[string][]Node{
 		{K: "flatten", On: []string{"p"}, Delim: "."},
 		{K: "flatten", On: []string{"h", "p"}, Delim: "_"},
 		{K: "flatten", On: []string{"p"}, Delim: ".", D: 2, Drop: true},
+		{K: "flatten", On: []string{"p"}, Delim: "-", D: 2},
 	},
 	"combine": {
 		{K: "combine", Lams: []string{"pEqX", "true"}, As: []string{"l", "r"}, Delim: ".", N: 10},
@@ -151,6 +153,17 @@ var Seqs = map[string][]Pt{
 		pt("m", "b", "y", 4, F{"v": fv(1), "w": iv(1)}),
 		pt("m", "", "x", 4, F{"v": iv(1)}),
 	},
+	// times going backwards inside a group (negative elapsed, late points)
+	"ooo": {
+		pt("m", "a", "x", 2, F{"v": iv(1)}),
+		pt("m", "b", "x", 2, F{"v": fv(2)}),
+		pt("m", "a", "y", 1, F{"v": iv(3)}),
+		pt("m", "a", "x", 1, F{"v": iv(2)}),
+		pt("m", "b", "y", 0, F{"v": fv(1)}),
+		pt("m", "a", "x", 0, F{"v": iv(5), "w": iv(1)}),
+		pt("m", "b", "x", 2, F{"v": fv(0.5)}),
+		pt("m", "a", "y", 2, F{"v": iv(4)}),
+	},
 	// one field per point (flatten with dropOriginalFieldName is only defined then)
 	"single": {
 		pt("m", "a", "x", 0, F{"v": iv(1)}),
@@ -164,7 +177,7 @@ var Seqs = map[string][]Pt{
 	},
 }
 
-var SeqNames = []string{"ints", "mixed", "floats", "single"}
+var SeqNames = []string{"ints", "mixed", "floats", "single", "ooo"}
 
 // Field/tag alphabets of random sequences.
 var randFields = []F{
